@@ -316,6 +316,7 @@ pub enum Kind {
         presets: Vec<AppRec>,
         system_idx: usize,
         boot: u32,
+        key_id: u64,
     },
     /// stream returned by start()/oneshot_check() is available
     Started,
